@@ -937,8 +937,10 @@ class TestResult(unittest.TestResult):
         # This requires some care.
         class BufferedStandardStream(io.TextIOWrapper):
             def getvalue(self):
+                # Tests may write arbitrary bytes through ``buffer``;
+                # showing them escaped beats aborting the run.
                 return self.buffer.getvalue().decode(
-                    encoding=self.encoding, errors=self.errors)
+                    encoding=self.encoding, errors='backslashreplace')
 
         return BufferedStandardStream(
             io.BytesIO(), newline='\n', write_through=True)
